@@ -17,7 +17,10 @@ KEY_KINDS = [("oct", None), ("RSA", 2048), ("RSA", 1024), ("RSA", 3072), ("RSA",
              ("EC", "P-256"), ("EC", "P-384"), ("EC", "P-521"), ("EC", "secp256k1"),
              ("OKP", "Ed25519"), ("OKP", "Ed448"), ("OKP", "X25519"), ("OKP", "X448")]
 EXTRA = [{}, {"kid": "stored-1"}, {"use": "sig"}, {"use": "enc", "alg": "ECDH-ES"}, {"key_ops": ["sign", "verify"]},
-         {"kid": "k/ü", "use": "sig", "key_ops": ["verify"]}, {"x5t": "abc", "kid": "with-x5t"}]
+         {"kid": "k/ü", "use": "sig", "key_ops": ["verify"]}, {"x5t": "abc", "kid": "with-x5t"},
+         # certificate members without a kid (what an X.509-backed directory publishes)
+         {"x5t": "dGh1bWJwcmludC1zaGEx"}, {"x5t#S256": "dGh1bWJwcmludC1zaGEyNTYtb2YtdGhlLWNlcnQ", "x5c": ["MIIB"]},
+         {"x5u": "https://ca.example/cert.pem", "x5t": "eDV0", "alg": "ES256"}]
 
 
 def gen_material(rng: Rng, kind, rare=None) -> RKey:
